@@ -789,7 +789,8 @@ func (c *Crash) kindFacts(op string, a []string, repo, status, code string, df, 
 		}
 		blobFacts("m", alg.FromBytes(body).String())
 		f = append(f, "body="+b01(len(body) > 0))
-		subj := status == "201" && bi.subj != "" && validDigestTok(bi.subj) && *h.conf.API.Referrer.Enabled && (bi.kind == "image" || bi.kind == "index")
+		// the handler takes any non-empty subject digest string (it need not parse)
+		subj := status == "201" && bi.subj != "" && h.tk.realDigest(bi.subj) != "" && *h.conf.API.Referrer.Enabled && (bi.kind == "image" || bi.kind == "index")
 		f = append(f, "subj="+b01(subj))
 		if subj {
 			c.respFacts(&f, repo, h.tk.realDigest(bi.subj), df, dfA)
